@@ -19,3 +19,7 @@ if "spirv" in which:
 if "table" in which:
     t = facts["table"]
     dump("table.json", {"core": t["core"], "glsl": t["glsl"], "opencl": t["opencl"], "kinds": t["kinds"]})
+
+if "params" in which:
+    o = facts["operand"]
+    dump("params.json", {"arms": o["parse"]["arms"], "args": o["parse"]["args"], "decode": o["decode"], "variants": o["variants"]})
